@@ -189,7 +189,7 @@ class C17(Prop):
     assumptions = ['costs are non-negative and exactly summable (ints, dyadic floats); a fifth of the drawn dictionaries are handed over as numpy or torch scalars - if the implementation accepts them (no TypeError) the placement must be valid for their values',
                    'worker groups are disjoint, non-empty lists of ranks < world_size']
     examples = {'quick': 1500, 'thorough': 6000}
-    shards = {'quick': 4, 'thorough': 16}
+    shards = {'quick': 8, 'thorough': 16}
     enum_shards = {'quick': 4, 'thorough': 16}
     required_labels = {'quick': ['nontrivial=True', 'kind=gen', 'kind=small', 'kind=hashseed'],
                        'thorough': ['nontrivial=True', 'kind=gen', 'kind=small', 'kind=hashseed']}
